@@ -466,7 +466,9 @@ def replay(path):
     d = json.load(open(path))
     oracle = native.Oracle(native.build('oracle-ide'))
     cex = d['cex']
-    if 'new_name' in cex:
+    if cex.get('fn') == 'find_def':
+        print(json.dumps([(w, r, p_) for (w, r, p_, nat) in alias_probes(oracle)], indent=1))
+    elif 'new_name' in cex:
         print(json.dumps(oracle.ask('rename', json.dumps(fixture(0, APP.index(NEEDLE[cex['kind']]), cex['new_name'])))))
     else:
         print(json.dumps(oracle.ask('rename', json.dumps(fixture(0, APP.index('helper'), 'fresh_name')))))
